@@ -127,6 +127,9 @@ func actorAddr(i int) common.Address {
 	if i < bhNU+bhNC {
 		return bhContract[i-bhNU]
 	}
+	if a, ok := blockedActor(i); ok { // module accounts and precompile addresses (blockparams.go)
+		return a
+	}
 	if i >= 1000 {
 		// a fresh address that has no account yet: a call with value creates it
 		var a common.Address
@@ -930,7 +933,7 @@ func (r *Replica) buildTx(ctx sdk.Context, t bhTx) ([]byte, error) {
 	case "upgrade", "fundrewards":
 		return nil, nil // direct operations
 	default:
-		return nil, fmt.Errorf("unknown tx kind %q", t.K)
+		return r.buildTxExt(ctx, t, f) // further kinds: blockparams.go
 	}
 	return r.signCosmos(ctx, f, gas, msgs...)
 }
@@ -950,7 +953,7 @@ func (r *Replica) runDirect(t bhTx) string {
 			return r.App.UpgradeKeeper.ScheduleUpgrade(ctx, upgradetypes.Plan{Name: t.S, Height: r.Height + 1})
 		})
 	}
-	return "error: unknown direct op"
+	return r.runDirectExt(t) // further direct operations: blockparams.go
 }
 
 // ---------------------------------------------------------------- history runner
@@ -1061,6 +1064,8 @@ type stepHooks struct {
 	BeforeEndBlock func(h *histRun, height int64) // after the last DeliverTx (the EndBlockers have not run yet)
 	AfterEndBlock  func(h *histRun, height int64)
 	AfterCommit    func(h *histRun, height int64)
+	BeforeTx       func(h *histRun, height int64, t *bhTx)               // before the transaction is built and delivered
+	AfterTx        func(h *histRun, height int64, t *bhTx, tr *txResult) // after DeliverTx / the direct operation
 	// GenTx, when set, produces the transactions of the block while it is executed
 	// (generation looks at the state); the block description is filled in place.
 	GenTx func(h *histRun, b *bhBlock, i int) *bhTx
@@ -1117,6 +1122,9 @@ func (h *histRun) runBlock(b *bhBlock, raw *rawBlock, hooks *stepHooks) (blockRe
 		idx := len(br.Txs)
 		var bz []byte
 		var err error
+		if hooks != nil && hooks.BeforeTx != nil {
+			hooks.BeforeTx(h, br.Height, &t)
+		}
 		if raw != nil {
 			if idx < len(raw.Txs) {
 				bz = raw.Txs[idx]
@@ -1157,6 +1165,9 @@ func (h *histRun) runBlock(b *bhBlock, raw *rawBlock, hooks *stepHooks) (blockRe
 			// log and info are documented as non-deterministic and are not part of the results hash
 			res.Log, res.Info = "", ""
 			tr.Digest = digest(mustProto(&res))
+		}
+		if hooks != nil && hooks.AfterTx != nil {
+			hooks.AfterTx(h, br.Height, &t, &tr)
 		}
 		br.Txs = append(br.Txs, tr)
 	}
